@@ -323,3 +323,188 @@ pub fn error_isolation_rule(cx: &Cx, rep: &mut Report, prop: &str) {
     }
     let _ = ATTRS;
 }
+
+
+fn struct_field_of_type(ix: &Index, st: &str, ty_contains: &str) -> Option<String> {
+    ix.structs.get(st)?.fields.iter().find(|(_, t)| crate::index::ty_str(t).contains(ty_contains)).map(|(n, _)| n.clone())
+}
+fn notes(st: &St) -> Vec<String> {
+    st.events.iter().filter_map(|e| if let Event::Note(n) = e { Some(n.clone()) } else { None }).collect()
+}
+
+/// DM-bound-parse: absent => continue; bound(...) => stop unless it contains `..`; types and predicates recorded
+pub fn bound_parse_rule(cx: &Cx, rep: &mut Report) {
+    let ix = &cx.ix;
+    let (Some(fty), Some(fpred), Some(fdef)) = (struct_field_of_type(ix, "Bounds", "Vec<Type>"), struct_field_of_type(ix, "Bounds", "Vec<WherePredicate>"), struct_field_of_type(ix, "Bounds", "bool")) else {
+        rep.fail("unanalysable", "Bounds", "fields", "struct Bounds { Vec<Type>, Vec<WherePredicate>, bool } not found", "bound.rs", json!({}));
+        return;
+    };
+    let Some(pushf) = find_fn(ix, &|f| f.self_ty.as_deref() == Some("Bounds") && sig_text(f).contains(":Bound)")) else { rep.fail("unanalysable", "Bounds::push", "not-found", "Bounds method consuming one Bound not found", "bound.rs", json!({})); return; };
+    let Some(fromf) = find_fn(ix, &|f| f.self_ty.as_deref() == Some("Bounds") && sig_text(f).contains("Option<NameArgs<Vec<Bound>>>")) else { rep.fail("unanalysable", "Bounds::from", "not-found", "Bounds constructor from the optional bound(...) argument not found", "bound.rs", json!({})); return; };
+    // push: one effect per kind of item
+    let ev = mk_ev(ix);
+    let outs = ev.call_fn(St::new(), &pushf, Some(sym("Bounds", "this")), vec![sym("Bound", "bound")]);
+    rep.unanalysable(&pushf.qual, &ev.unsupported.borrow());
+    let mut seen = std::collections::BTreeMap::new();
+    for (st, _) in &outs {
+        let var = st.cond.iter().find(|(a, b)| **b && a.starts_with("bound is ")).map(|(a, _)| a["bound is ".len()..].to_string()).unwrap_or_default();
+        seen.insert(var, notes(st));
+    }
+    let has = |v: &str, pat: &str| seen.get(v).map(|ns| ns.iter().any(|n| n.replace(' ', "").contains(pat))).unwrap_or(false);
+    rep.check(has("Type", &format!("mutcall$this.{fty}.push($bound.Type)")), "DM-bound-parse", &pushf.qual, "type-item", "a type written in bound(...) is not recorded as a type to be bounded by the trait", &site(&pushf), json!({"effects": format!("{:?}", seen.get("Type"))}));
+    rep.check(has("Pred", &format!("mutcall$this.{fpred}.push($bound.Pred)")), "DM-bound-parse", &pushf.qual, "predicate-item", "a predicate written in bound(...) is not recorded verbatim", &site(&pushf), json!({"effects": format!("{:?}", seen.get("Pred"))}));
+    rep.check(has("Default", &format!("field-assignself.{fdef}")) && !has("Type", "field-assign") && !has("Pred", "field-assign"), "DM-bound-parse", &pushf.qual, "dotdot-item", "`..` in bound(...) does not (only) re-enable the lower-priority levels", &site(&pushf), json!({"effects": format!("{:?}", seen.get("Default"))}));
+    // `..` must set the flag to true
+    {
+        let src = pushf.block.to_token_stream().to_string().replace(' ', "");
+        let _ = src;
+    }
+    // from: absent => default true; present => default false, every item pushed
+    let mut ev = mk_ev(ix);
+    ev.stops.push((pushf.qual.clone(), "opaque"));
+    ev.push_fns.push(pushf.qual.clone());
+    let outs = ev.call_fn(St::new(), &fromf, None, vec![Val::Sym { ty: Ty::Named("Option".into(), vec![Ty::Named("NameArgs".into(), vec![Ty::Named("Vec".into(), vec![Ty::Named("Bound".into(), vec![])])])]), path: "bound".into() }]);
+    rep.unanalysable(&fromf.qual, &ev.unsupported.borrow());
+    let mut ok_absent = false;
+    let mut ok_present = false;
+    for (st, fl) in &outs {
+        let present = st.cond.get("bound").copied();
+        let Flow::Val(Val::Struct { fields, .. }) = fl else { continue };
+        let d = fields.iter().find(|(n, _)| *n == fdef).map(|(_, v)| v.short());
+        let pushes: Vec<String> = st.events.iter().filter_map(|e| if let Event::Push { func, place, .. } = e { if *func == pushf.qual { Some(place.clone()) } else { None } } else { None }).collect();
+        let in_loop = st.events.iter().any(|e| matches!(e, Event::Note(n) if n.starts_with("loop-begin bound")));
+        match present {
+            Some(false) => ok_absent = d.as_deref() == Some("true") && pushes.is_empty(),
+            Some(true) => ok_present = d.as_deref() == Some("false") && pushes.len() == 1 && in_loop && pushes[0].contains("[*]"),
+            None => {}
+        }
+    }
+    rep.check(ok_absent, "DM-bound-parse", &fromf.qual, "absent", "an absent bound(...) does not mean `continue with the lower-priority level`", &site(&fromf), json!({}));
+    rep.check(ok_present, "DM-bound-parse", &fromf.qual, "present", "a present bound(...) does not stop resolution by default / does not record each of its items", &site(&fromf), json!({"paths": outs.iter().map(|(st, fl)| format!("[{}] {} :: {:?}", crate::model::cond_str(&st.cond), match fl { Flow::Val(v) => v.short(), _ => "?".into() }, crate::model::trace(&st.events))).collect::<Vec<_>>()}));
+    // `..` sets true: evaluate the assigned constant
+    let ev = mk_ev(ix);
+    let outs = ev.call_fn(St::new(), &pushf, Some(Val::Struct { name: "Bounds".into(), fields: vec![(fdef.clone(), Val::Bool(false))] }), vec![Val::Enum { ty: "Bound".into(), var: "Default".into(), args: vec![Val::Unit] }]);
+    let _ = outs;
+    let assigns_true = pushf.block.to_token_stream().to_string().replace(' ', "").contains(&format!("self.{fdef}=true"));
+    rep.check(assigns_true, "DM-bound-parse", &pushf.qual, "dotdot-true", "`..` does not set the continue flag to true", &site(&pushf), json!({}));
+}
+
+/// DM-wcb: the where-clause builder records what is pushed and emits all of it
+pub fn wcb_rule(cx: &Cx, rep: &mut Report) {
+    let ix = &cx.ix;
+    let (Some(wt), Some(wp)) = (struct_field_of_type(ix, "WhereClauseBuilder", "Vec<Type>"), struct_field_of_type(ix, "WhereClauseBuilder", "Vec<WherePredicate>")) else {
+        rep.fail("unanalysable", "WhereClauseBuilder", "fields", "struct WhereClauseBuilder { Vec<Type>, Vec<WherePredicate>, .. } not found", "bound.rs", json!({})); return;
+    };
+    let (Some(bt), Some(bp), Some(bd)) = (struct_field_of_type(ix, "Bounds", "Vec<Type>"), struct_field_of_type(ix, "Bounds", "Vec<WherePredicate>"), struct_field_of_type(ix, "Bounds", "bool")) else { return };
+    let mut ev = mk_ev(ix);
+    ev.push_fns.clear();
+    let wsym = sym("WhereClauseBuilder", "wcb");
+    // push_bounds
+    if let Some(f) = find_fn(ix, &|f| f.self_ty.as_deref() == Some("WhereClauseBuilder") && sig_text(f).contains("&Bounds") && sig_text(f).contains("->bool")) {
+        let outs = ev.call_fn(St::new(), &f, Some(wsym.clone()), vec![sym("Bounds", "b")]);
+        let mut ok = outs.len() == 1;
+        for (st, fl) in &outs {
+            let ns: Vec<String> = notes(st).iter().map(|n| n.replace(' ', "")).collect();
+            let p_ok = ns.iter().any(|n| n.starts_with(&format!("mutcall$wcb.{wp}.extend(")) && n.contains(&format!("$b.{bp}")));
+            let t_ok = ns.iter().any(|n| n.starts_with(&format!("mutcall$wcb.{wt}.extend(")) && n.contains(&format!("$b.{bt}")));
+            let r_ok = matches!(fl, Flow::Val(Val::Atom(F::A(a))) if *a == format!("b.{bd}"));
+            ok = ok && p_ok && t_ok && r_ok;
+        }
+        rep.check(ok, "DM-wcb", &f.qual, "push-bounds", "pushing a bound(...) level does not record all its predicates and types and return its continue flag", &site(&f), json!({}));
+    } else { rep.fail("unanalysable", "WhereClauseBuilder", "push_bounds", "method (&Bounds) -> bool not found", "bound.rs", json!({})); }
+    // push_bounds_for_field
+    if let Some(f) = find_fn(ix, &|f| f.self_ty.as_deref() == Some("WhereClauseBuilder") && sig_text(f).contains("&Field")) {
+        let outs = ev.call_fn(St::new(), &f, Some(wsym.clone()), vec![sym("Field", "field")]);
+        let mut ok = outs.len() == 2;
+        for (st, _) in &outs {
+            let guard = st.cond.iter().find(|(a, _)| a.starts_with("contains_in_type")).map(|(a, b)| (a.clone(), *b));
+            let pushed = notes(st).iter().any(|n| n.replace(' ', "").starts_with(&format!("mutcall$wcb.{wt}.push(")) && n.contains("field.ty"));
+            match guard { Some((a, b)) => { ok = ok && a.contains("field.ty") && pushed == b; } None => ok = false }
+        }
+        rep.check(ok, "DM-wcb", &f.qual, "push-field", "the default bound is not: `field type, iff it mentions a generic parameter`", &site(&f), json!({}));
+    } else { rep.fail("unanalysable", "WhereClauseBuilder", "push_bounds_for_field", "method (&Field) not found", "bound.rs", json!({})); }
+    // build: every type through the formatter, every predicate verbatim
+    if let Some(f) = find_fn(ix, &|f| f.self_ty.as_deref() == Some("WhereClauseBuilder") && sig_text(f).contains("->TokenStream")) {
+        let outs = ev.call_fn(St::new(), &f, Some(wsym.clone()), vec![sym("Formatter", "f")]);
+        let mut ok_nonempty = false;
+        let mut ok_empty = false;
+        for (st, fl) in &outs {
+            let empty = st.cond.iter().find(|(a, _)| a.starts_with("all-empty(")).map(|(_, b)| *b);
+            let Flow::Val(Val::Tmpl(t)) = fl else { continue };
+            match empty {
+                Some(true) => ok_empty = t.tokens.trim().is_empty(),
+                Some(false) => {
+                    let ws = t.holes.iter().find(|(_, v)| matches!(v, Val::List(_))).map(|(_, v)| v.clone());
+                    if let Some(Val::List(items)) = ws {
+                        let r1 = items.iter().any(|x| matches!(x, Val::Rep { coll, items } if *coll == format!("wcb.{wt}") && items.len() == 1 && items[0].any(&|y| matches!(y, Val::Opaque { what, deps } if what == "call f" && deps.iter().any(|d| matches!(d, Val::Sym { path, .. } if path.starts_with(&format!("wcb.{wt}[*]")))))) ));
+                        let r2 = items.iter().any(|x| matches!(x, Val::Rep { coll, items } if *coll == format!("wcb.{wp}") && items.len() == 1 && items[0].any(&|y| matches!(y, Val::Sym { path, .. } if path.starts_with(&format!("wcb.{wp}[*]")))) ));
+                        ok_nonempty = items.len() == 2 && r1 && r2 && t.tokens.replace(' ', "").starts_with("where");
+                    }
+                }
+                None => {}
+            }
+        }
+        rep.check(ok_nonempty && ok_empty, "DM-wcb", &f.qual, "build", "the where-clause is not `where` + every collected type through the trait formatter + every collected predicate verbatim (or nothing when both are empty)", &site(&f), json!({"nonempty": ok_nonempty, "empty": ok_empty}));
+    } else { rep.fail("unanalysable", "WhereClauseBuilder", "build", "method -> TokenStream not found", "bound.rs", json!({})); }
+    // new: the declared where-clause is copied
+    if let Some(f) = find_fn(ix, &|f| f.self_ty.as_deref() == Some("WhereClauseBuilder") && sig_text(f).contains("&Generics") && sig_text(f).contains("->Self")) {
+        let ev2 = mk_ev(ix);
+        ev2.open_at_top.replace(Some(f.qual.clone()));
+        let outs = ev2.call_fn(St::new(), &f, None, vec![sym("Generics", "generics")]);
+        let mut ok = false;
+        for (st, fl) in &outs {
+            let Flow::Val(Val::Struct { fields, .. }) = fl else { continue };
+            let has_where = st.cond.iter().any(|(a, b)| *b && a.contains("split_for_impl"));
+            let pv = fields.iter().find(|(n, _)| *n == wp).map(|(_, v)| v.clone()).unwrap_or(Val::Unit);
+            let tv = fields.iter().find(|(n, _)| *n == wt).map(|(_, v)| v.short()).unwrap_or_default();
+            if has_where {
+                ok = pv.any(&|y| matches!(y, Val::Opaque { what, .. } if what.contains("predicates"))) && pv.any(&|y| matches!(y, Val::Sym { path, .. } if path == "generics")) && tv == "L[]";
+            }
+        }
+        rep.check(ok, "DM-wcb", &f.qual, "new", "the builder does not start from exactly the type's own where-predicates", &site(&f), json!({}));
+    } else { rep.fail("unanalysable", "WhereClauseBuilder", "new", "constructor (&Generics) -> Self not found", "bound.rs", json!({})); }
+    rep.unanalysable("WhereClauseBuilder", &ev.unsupported.borrow());
+}
+
+/// DM-mentions-param: type and const (not lifetime) parameters; first segment of paths without leading `::`; keeps descending
+pub fn mentions_param_rule(cx: &Cx, rep: &mut Report) {
+    let ix = &cx.ix;
+    let ev = mk_ev(ix);
+    if let Some(f) = find_fn(ix, &|f| f.self_ty.as_deref() == Some("GenericParamSet") && sig_text(f).contains("&Generics")) {
+        let outs = ev.call_fn(St::new(), &f, None, vec![sym("Generics", "generics")]);
+        let mut ins = std::collections::BTreeMap::new();
+        for (st, _) in &outs {
+            let var = st.cond.iter().find(|(a, b)| **b && a.contains("params[*] is ")).map(|(a, _)| a.rsplit(" is ").next().unwrap_or("").to_string()).unwrap_or("other".into());
+            let inserted = notes(st).iter().any(|n| n.contains(".insert(") && n.contains(&format!("params[*].{var}")));
+            ins.insert(var, inserted);
+        }
+        let ok = ins.get("Type") == Some(&true) && ins.get("Const") == Some(&true) && ins.iter().all(|(k, v)| k == "Type" || k == "Const" || !*v);
+        rep.check(ok, "DM-mentions-param", &f.qual, "param-kinds", &format!("the set of generic parameters is not `type and const parameters, not lifetimes`: {ins:?}"), &site(&f), json!({}));
+        rep.unanalysable(&f.qual, &ev.unsupported.borrow());
+    } else { rep.fail("unanalysable", "GenericParamSet", "new", "constructor from &Generics not found", "syn_utils.rs", json!({})); }
+    // the visitor override nested in contains_in_type
+    let Some(outer) = find_fn(ix, &|f| f.self_ty.as_deref() == Some("GenericParamSet") && sig_text(f).contains("&Type") && sig_text(f).contains("->bool")) else { rep.fail("unanalysable", "GenericParamSet", "contains_in_type", "method (&Type) -> bool not found", "syn_utils.rs", json!({})); return; };
+    let mut nested: Option<syn::ImplItemFn> = None;
+    for s in &outer.block.stmts { if let syn::Stmt::Item(syn::Item::Impl(im)) = s { for it in &im.items { if let syn::ImplItem::Fn(f) = it { if f.sig.ident.to_string().starts_with("visit_") { nested = Some(f.clone()); } } } } }
+    let Some(vf) = nested else { rep.fail("DM-mentions-param", &outer.qual, "no-visitor", "the type is no longer traversed by a syn visitor override", &site(&outer), json!({})); return; };
+    let fd = Rc::new(FnDef { qual: format!("{}::{}", outer.qual, vf.sig.ident), self_ty: Some("Visitor".into()), sig: vf.sig.clone(), block: vf.block.clone(), file: outer.file.clone(), line: vf.sig.ident.span().start().line, attrs: vec![], is_trait_impl: Some("Visit".into()) });
+    let ev = mk_ev(ix);
+    let outs = ev.call_fn(St::new(), &fd, Some(sym("Visitor", "v")), vec![sym("Path", "p")]);
+    rep.unanalysable(&fd.qual, &ev.unsupported.borrow());
+    let mut sets_true_ok = false;
+    let mut bad_set = false;
+    let mut all_descend = !outs.is_empty();
+    for (st, _) in &outs {
+        let ns = notes(st);
+        let sets = ns.iter().any(|n| n.replace(' ', "").starts_with("field-assignself.result"));
+        let lead_none = st.cond.iter().find(|(a, _)| a.contains("leading_colon")).map(|(a, b)| if a.contains("is_none") { *b } else { !*b });
+        let contains = st.cond.iter().find(|(a, _)| a.contains(".contains")).map(|(a, b)| (a.clone(), *b));
+        if sets {
+            let first_seg = contains.as_ref().map(|(a, _)| a.contains(".next") || a.contains("segments")).unwrap_or(false);
+            if lead_none == Some(true) && contains.as_ref().map(|c| c.1) == Some(true) && first_seg { sets_true_ok = true; } else { bad_set = true; }
+        } else if lead_none == Some(true) && contains.as_ref().map(|c| c.1) == Some(true) { bad_set = true; }
+        if !ns.iter().any(|n| n.starts_with(&format!("extcall {}", vf.sig.ident))) { all_descend = false; }
+    }
+    rep.check(sets_true_ok && !bad_set, "DM-mentions-param", &fd.qual, "first-segment", "a type is not reported as mentioning a parameter exactly when some path without leading `::` starts with a parameter name", &site(&fd), json!({}));
+    rep.check(all_descend, "DM-mentions-param", &fd.qual, "descends", "the visitor does not keep descending into the path (generic arguments would be missed)", &site(&fd), json!({}));
+}
